@@ -13,6 +13,7 @@ from . import front
 from .vals import *
 
 SOLVER_TIMEOUT_MS = int(os.environ.get("VERIF_SOLVER_TIMEOUT_MS", "20000"))
+ABS_TIMEOUT_MS = int(os.environ.get("VERIF_ABS_TIMEOUT_MS", "30000"))
 FEAS_TIMEOUT_MS = int(os.environ.get("VERIF_FEAS_TIMEOUT_MS", "300"))
 
 
@@ -185,7 +186,7 @@ class Interp:
         self.solver.set("timeout", SOLVER_TIMEOUT_MS)
         from .abstraction import Abstractor
         self.asolver = z3.Solver()          # the same assertions with non-linear arithmetic abstracted to UFs
-        self.asolver.set("timeout", 10000)
+        self.asolver.set("timeout", ABS_TIMEOUT_MS)
         self.abs = Abstractor(self.asolver)
         self.heap = {}
         self.next_oid = 0
@@ -269,13 +270,41 @@ class Interp:
         for k in list(self.keys):
             self._assert(f(k))
 
+    def use_lemma(self, name, formula):
+        """A context-free arithmetic lemma: `formula` must be valid on its own (checked in a fresh solver, no
+        path condition), and is then available on this path.  Keeps hard non-linear steps out of the big queries."""
+        from .engine import Obligation
+        import time as _t
+        t0 = _t.time()
+        key = formula.get_id()
+        s = z3.Solver()
+        s.set("timeout", 20000)
+        s.add(z3.Not(formula))
+        r = s.check()
+        v = "unsat" if r == z3.unsat else ("sat" if r == z3.sat else "unknown")
+        backend = "z3-5.1(py,fresh,context-free)"
+        if v == "unknown":
+            from .solve import cvc5_cli
+            v, _ = cvc5_cli(s.to_smt2(), 30)
+            backend = "cvc5-1.0.3(cli,context-free)"
+        ob = Obligation(name, v, backend, int((_t.time() - t0) * 1000), path=list(self.dec), kind="vc",
+                        detail="context-free arithmetic lemma")
+        self.obls.append(ob)
+        if v == "unsat":
+            self._assert(formula)
+        return ob
+
     def sat_possible(self, cond=None):
         """False only if the path condition (plus cond) is certainly unsatisfiable."""
-        if cond is None:
-            if self.asolver.check() == z3.unsat:
+        self.asolver.set("timeout", 3000)
+        try:
+            if cond is None:
+                if self.asolver.check() == z3.unsat:
+                    return False
+            elif self.asolver.check(self.abs.ab(cond)) == z3.unsat:
                 return False
-        elif self.asolver.check(self.abs.ab(cond)) == z3.unsat:
-            return False
+        finally:
+            self.asolver.set("timeout", ABS_TIMEOUT_MS)
         self.solver.set("timeout", FEAS_TIMEOUT_MS)
         try:
             r = self.solver.check() if cond is None else self.solver.check(cond)
